@@ -18,7 +18,7 @@ from mc import drive, scriptrng, util, world
 ID = "C18"
 LEVEL = "model_checking"
 RULE = (
-    "release discrete/continuous x extra release column (none / int particle variable / time-typed release_time) x IBM variable none/one x diffusion 0/>0 x "
+    "release discrete/continuous x extra release column (none / int particle variable / time-typed release_time / lon,lat next to X,Y) x IBM variable none/one x diffusion 0/>0 x "
     "subgrid none/some x advection EF/RK4 x grid section explicit / omitted with plain forcing name / omitted with wildcard forcing name (* and a character class) x optional sections "
     "omitted / explicitly empty / blank (a YAML section header with nothing under it) x reference time given/defaulted x dt spelling; each point = 3 renderings, 3 runs; non-trivial = point where at least one "
     "optional feature (continuous, extra column, IBM variable, subgrid, omitted grid) is on; lattice points distinct by construction"
@@ -32,14 +32,14 @@ NSTEPS = 5
 
 
 def bounds(tier, seed):
-    return dict(release=["discrete", "continuous"], column=["none", "int", "time"], ibmvar=[False, True], diffusion=[0.0, 2.5, 4], subgrid=[None, [2, 9, 1, 7]], advection=["EF", "RK4"],
+    return dict(release=["discrete", "continuous"], column=["none", "int", "time", "lonlat"], ibmvar=[False, True], diffusion=[0.0, 2.5, 4], subgrid=[None, [2, 9, 1, 7]], advection=["EF", "RK4"],
                 grid=["explicit", "explicit-plugin-nomodule", "omitted-plain", "omitted-wildcard", "omitted-wildcard-class"], optional=["omitted", "empty", "blank"], reference=[False, True], dt=["int", "list", "iso"])
 
 
 def cases(tier, seed):
     out = []
     k = seed
-    for rel, col, ibm, diff, grid in itertools.product(["discrete", "continuous"], ["none", "int", "time"], [False, True], [0.0, 2.5, 4], ["explicit", "explicit-plugin-nomodule", "omitted-plain", "omitted-wildcard", "omitted-wildcard-class"]):
+    for rel, col, ibm, diff, grid in itertools.product(["discrete", "continuous"], ["none", "int", "time", "lonlat"], [False, True], [0.0, 2.5, 4], ["explicit", "explicit-plugin-nomodule", "omitted-plain", "omitted-wildcard", "omitted-wildcard-class"]):
         others = list(itertools.product([None, [2, 9, 1, 7]], ["EF", "RK4"], ["omitted", "empty", "blank"], [False, True], ["int", "list", "iso"]))
         if tier == "quick":
             k += 1
@@ -65,11 +65,12 @@ def write_world(d):
 
 
 def release_file(case, d):
-    cols = ["mult", "release_time", "X", "Y", "Z"] + (["farmid"] if case["column"] == "int" else [])
+    # "lonlat": the release file carries the geographic position next to X, Y (carried along as instance variables, not written to the output)
+    cols = ["mult", "release_time", "X", "Y", "Z"] + (["farmid"] if case["column"] == "int" else []) + (["lon", "lat"] if case["column"] == "lonlat" else [])
     rows = [(2, 0, 4.3, 3.6, 5.0, 17), (1, 0, 5.7, 2.4, 10.0, 23), (1, 2, 3.6, 4.2, 2.0, 31)]
     lines = []
     for m, slot, x, y, z, fid in rows:
-        vals = dict(mult=m, release_time=world.iso(S0 + slot * DT), X=x, Y=y, Z=z, farmid=fid)
+        vals = dict(mult=m, release_time=world.iso(S0 + slot * DT), X=x, Y=y, Z=z, farmid=fid, lon=5.0 + 0.01 * x, lat=60.0 + 0.005 * y)
         lines.append(" ".join(str(vals[c]) for c in cols))
     (d / "r.rls").write_text("\n".join(lines) + "\n")
     return cols
@@ -135,6 +136,8 @@ def render_v2(case, d, cols, outname, native_time=False):
     iv, pv = {}, {}
     if case["ibmvar"]:
         iv["age"] = "float"
+    if case["column"] == "lonlat":
+        iv["lon"] = iv["lat"] = "float"
     if case["column"] == "int":
         pv["farmid"] = "int"
     if case["column"] == "time":
